@@ -1,13 +1,79 @@
-import NutilsVerif.Model.C11
+import NutilsVerif.Model.C11Spec
 import NutilsVerif.Generated.C11Refs
+import NutilsVerif.Proofs.C11Rewrite
 /-!
 # C11 — property theorems
+
+Clause "rewriting a transform chain to canonical, uppermost or promoted form never changes the affine map it represents":
+`swapup_preserves`, `swapdown_preserves` (any tensor nesting of simplex items of dimension ≤ 3), `canonical_preserves`,
+`uppermost_preserves`, `promote_preserves` (all well-formed chains, no bound on the length; the loops are total functions, so
+termination of `canonical` / `uppermost` is part of the model).
+(X) tie: `refTab_matches_model`, `swap_table_sound`, `swap_table_inverse`, `children_tile`.
 -/
 namespace NutilsVerif.C11
+
+/-! ## (X) the extracted tables -/
 
 /-- (X) every child and edge transform of every reference kind of the source (point, line, square, cube, tesseract, triangle,
 tetrahedron, prisms) denotes, in the model, exactly the matrix, offset, orientation flag and dimensions the real object has. -/
 theorem refTab_matches_model : ∀ r ∈ Gen.refTab, ∀ e ∈ r.2.2, e.ok = true := by
   decide +kernel
+
+/-- (X) every entry of the extracted `SimplexEdge.swap` table that `swapup` can read (simplices of dimension 1..3): the swapped
+pair (child, edge) composes to the same matrix and offset as (edge, child), has the same orientation, and is found back by the
+search of `swapdown`. -/
+theorem swap_table_sound : ∀ n, n < 4 → 1 ≤ n → ∀ ie, ie < n + 1 → ∀ ic, ic < 2^(n-1) → swapUpOK n ie ic = true :=
+  swapTab_up
+
+/-- (X) every successful search of `SimplexEdge.swapdown` in the extracted table yields the same affine map and orientation and
+is mapped back by `swapup`. -/
+theorem swap_table_inverse : ∀ n, n < 4 → 1 ≤ n → ∀ ic, ic < 2^n → ∀ ie, ie < n + 1 → swapDownOK n ic ie = true :=
+  swapTab_down
+
+/-- the children of a reference tile it by volume: the absolute determinants of the extracted matrices add up to 1 -/
+def childVolume (es : List RefEntry) : Rat :=
+  ((es.filter fun e => !e.isEdge).map fun e => let d := det e.lin.length e.lin; if d < 0 then -d else d).sum
+
+/-- (X) for every reference kind the child transforms are volume preserving in total: Σ |det| = 1. -/
+theorem children_tile : ∀ r ∈ Gen.refTab, childVolume r.2.2 = 1 := by
+  decide +kernel
+
+/-- (X) the child and edge transforms of `LineReference()**n` (n ≤ 4) are the ones `StructuredTransforms` is modelled with. -/
+theorem cube_tables :
+    ∀ p ∈ [("point", 0), ("line", 1), ("square", 2), ("cube", 3), ("tesseract", 4)], ∀ r ∈ Gen.refTab, r.1 = p.1 →
+      ((r.2.2.filter fun e => !e.isEdge).map (·.item)) = (cubeChildren p.2).map Item.sq ∧
+      ((r.2.2.filter fun e => e.isEdge).map (·.item)) = (cubeEdges p.2).map Item.up := by
+  decide +kernel
+
+/-! ## swaps and chain rewrites preserve the affine map -/
+
+/-- `e.swapup(c) = (c', e')` for fitting well-formed items of any tensor nesting: the results are well-formed, have the
+dimensions of a (scale, updim) pair in the same place, the same orientation, and `c' ∘ e' = e ∘ c` as maps on points. -/
+theorem swapup_preserves (e : Up) (c c' : Sq) (e' : Up) (hwe : e.wf = true) (hwc : c.wf = true) (hd : e.fd = c.dim)
+    (h : e.swapup c = some (c', e')) : SwapUpSpec e c c' e' :=
+  Up.swapup_sound e c c' e' hwe hwc hd h
+
+/-- `e.swapdown(c) = (e', c')` (including the `ScaledUpdim` fallback): same statement in the other direction. -/
+theorem swapdown_preserves (e : Up) (c : Sq) (e' : Up) (c' : Sq) (hwe : e.wf = true) (hwc : c.wf = true) (hd : c.dim = e.td)
+    (h : e.swapdown c = some (e', c')) : SwapDownSpec e c e' c' :=
+  Up.swapdown_sound e c e' c' hwe hwc hd h
+
+/-- `transform.canonical` never changes the map: for every well-formed chain `R^fd → R^td` the result is again such a chain,
+sends every point to the same image, and has the same orientation. -/
+theorem canonical_preserves (l : Chain) (td fd : Nat) (h : Fits l td fd) : SameMap l (canonical l) td fd :=
+  Reach.sameMap h ((canonical_reach l).mono fun _ _ s => .inl s)
+
+/-- `transform.uppermost` never changes the map. -/
+theorem uppermost_preserves (l : Chain) (td fd : Nat) (h : Fits l td fd) : SameMap l (uppermost l) td fd :=
+  Reach.sameMap h ((uppermost_reach l).mono fun _ _ s => .inr s)
+
+/-- `transform.promote` never changes the map, whatever `ndims` is asked for. -/
+theorem promote_preserves (l : Chain) (n td fd : Nat) (h : Fits l td fd) : SameMap l (promote l n) td fd :=
+  Reach.sameMap h (promote_reach l n)
+
+-- non-vacuity: a cube child followed by a face and an edge of the face is a well-formed chain R^1 → R^3
+example : Fits [.sq (.tensorChild (.simplexChild 1 0) (.tensorChild (.simplexChild 1 1) (.simplexChild 1 0))),
+                .up (.tensorEdge2 1 (.tensorEdge1 (.simplexEdge 1 0 false) 1)), .up (.tensorEdge1 (.simplexEdge 1 1 false) 1)] 3 1 :=
+  .cons _ _ _ (by decide) (.cons _ _ _ (by decide) (.cons _ _ _ (by decide) (.nil _)))
 
 end NutilsVerif.C11
